@@ -234,12 +234,13 @@ META = {
     'technique': 'static analysis: reference-definition comparison of the block decoder (8/4 bit), residue-class header size, '
                  'interprocedural alias/effect summaries (ALIASINPLACE, WHOWRITES), save/restore pairing on the event trace (RESTORE), '
                  'symbolic gain term (FORMULA), argument dataflow (ARGBIND/AGREE)',
-    'level': 'Decides from the source that input blocks are decoded with the layout the writer uses (4 bit sign extension included), '
-             'that the header bytes skipped match 80*L + padding iff DIRECTIO, that the new backend takes block size, channel count, '
-             'blocks per file and bit depth (all three quantiser objects) from the input, that the recorded length is clamped to the '
-             'input before use, that no persistent array is modified in place through a local alias (the synthetic gain is '
-             'channelized_stds [* digitiser deviation] recomputed per sub-block), that the temporary zero target mean is restored, and '
-             'that real/imag statistics reach the matching quantiser. The requantised values are not decided.',
+    'level': 'Decides from the source that input blocks are decoded with the layout the writer uses (4 bit sign extension '
+             'included), that the header bytes skipped match 80*L + padding iff int(DIRECTIO) != 0, that every (antenna, '
+             'polarisation) owns deep copies of the component templates, that the new backend takes block size, channel count,'
+             ' blocks per file and bit depth (all three quantiser objects) from the input, that the recorded length is clamped'
+             ' to the input before use, that no persistent array is modified in place through a local alias (the synthetic '
+             'gain is channelized_stds [* digitiser deviation] recomputed per sub-block), that the temporary zero target mean '
+             'is restored, and that real/imag statistics reach the matching quantiser. The requantised values are not decided.',
     'note': 'Alias analysis is name/attribute-path based; duck-typed quantize/channelize calls are opaque; only the quantiser caches '
             'listed in the whitelist may be updated by their owners.',
 }
